@@ -208,6 +208,8 @@ def run(chk):
     chk.guard(c01.r01_6, chk, ft)
     chk.guard(c01.r01_8, chk, ft)
     chk.guard(c01.r01_8b, chk, ft)
+    chk.rule("R01.10", "(dependency) polar-pair decoders (circular, mean-circular, equinoctial) invert their encoders: a state given in those forms is converted to mean elements before it is propagated")
+    chk.guard(c01.r01_10, chk, ft)
     chk.guard(c01.r01_11, chk, ft)
     chk.guard(c01.r01_13, chk, ft)
     chk.assume("first-order secular J2 rates: dΩ = −3/2 n J2 (Re/p)² cos i, dω = 3/4 n J2 (Re/p)² (4 − 5 sin²i), "
